@@ -73,7 +73,13 @@ Ev ==
          /\ UNCHANGED <<st, holder, views, reads, half>>
     [] e.pt = "locked" ->
          /\ <<e.b, e.n>> \notin DOMAIN holder /\ holder' = Put(holder, <<e.b, e.n>>, p)
-         /\ UNCHANGED <<st, ops, exp, views, reads, committed, half>>
+         \* file store: a copy has no precondition check; it starts rewriting the destination's files right away
+         /\ IF CurRun.store = "file" /\ ops[p].ev = "Copy"
+            THEN /\ half' = half \cup {<<e.b, e.n>>}
+                 /\ reads' = [q \in DOMAIN reads |-> IF reads[q].bn = <<e.b, e.n>> THEN [reads[q] EXCEPT !.torn = TRUE] ELSE reads[q]]
+                 /\ views' = [q \in DOMAIN views |-> IF views[q].bn = <<e.b, e.n>> THEN [views[q] EXCEPT !.torn = TRUE] ELSE views[q]]
+            ELSE UNCHANGED <<views, reads, half>>
+         /\ UNCHANGED <<st, ops, exp, committed>>
     [] e.pt \in {"beforeRespRead", "Get.afterMeta"} \/ (e.pt = "afterCheck" /\ CurRun.store # "file") ->
          UNCHANGED <<st, ops, exp, holder, views, reads, committed, half>>
     \* file store: from here until the commit the writer rewrites the content file and/or the sidecar, neither atomically
